@@ -69,7 +69,10 @@ def gen_dps(rng, k, counter, names):
   out = []
   for _ in range(k):
     counter[0] += 1
-    out.append((rng.choice(names), rng.choice(TS), float(counter[0])))
+    # mostly unique values (every read attributable to one write); now and then the
+    # falsy ones, which must be stored, overwritten and counted like any other
+    v = float(counter[0]) if rng.random() > 0.12 else rng.choice([0.0, 0.0, -0.0, 0])
+    out.append((rng.choice(names), rng.choice(TS), v))
   return out
 
 
@@ -102,6 +105,9 @@ def gen_plan(rng, cfg, tier, profile):
     weights.update(sleep=3)
   if profile == 'c19':
     weights.update(schema=2, sleep=4)
+  weights['setlag'] = 0
+  if profile == 'c17' and s.get('CACHE_WRITE_STRATEGY') == 'timesorted':
+    weights['setlag'] = 2      # the lag changes at run time (shutdown resets it to 0)
   kinds = [k for k, wgt in weights.items() for _ in range(wgt)]
   structured = profile == 'c09' and rng.random() < 0.6
   if structured:
@@ -146,6 +152,28 @@ def gen_plan(rng, cfg, tier, profile):
     elif k == 'schema':
       from . import c19
       ops.append(c19.gen_schema_op(rng, cfg))
+    elif k == 'setlag':
+      ops.append(['setlag', rng.choice([0, 0, 5, 60, 120])])
+  if profile == 'c19' and rng.random() < 0.6:
+    # aim new metrics at the instant of the 60 s schema reload: the writer's pass and
+    # the reload LoopingCall are then both due at the same virtual time
+    from . import c19
+    ops = []
+    for cycle in range(rng.randint(1, 3)):
+      for _ in range(rng.randint(0, 2)):
+        ops.append(['send', rng.randrange(4), gen_dps(rng, rng.randint(1, 3), counter, names)])
+      for _ in range(rng.randint(1, 2)):
+        ops.append(c19.gen_schema_op(rng, cfg))
+      ops.append(['sleep', rng.choice([59.0, 59.5, 59.9, 58.0])])
+      for _ in range(rng.randint(1, 3)):
+        ops.append(['send', rng.randrange(4), gen_dps(rng, rng.randint(1, 4), counter,
+                                                      names + ['new%d.cpu' % cycle, 'sys.new%d' % cycle,
+                                                               'm0.new%d' % cycle])])
+      ops.append(['sleep', rng.choice([1.0, 0.5, 0.1, 2.0])])
+      ops.append(['sleep', rng.choice([0.0, 0.5, 1.0])])
+    plan['file_p'] = {'w': rng.choice([0.02, 0.1, 0.3])}
+    plan['hot'] = [[r'\bschema\b|SCHEMAS', rng.choice([0.3, 0.6])]]
+    plan['p_tie'] = 0.9
   if profile == 'c04':
     pos = rng.randint(1, len(ops))
     ops.insert(pos, ['stop'])
@@ -167,6 +195,14 @@ def gen_plan(rng, cfg, tier, profile):
   if profile == 'c09' and rng.random() < 0.7:
     hot = rng.choice([0.2, 0.5, 0.8])
     plan['file_p'] = {'e': hot, 'p': rng.choice([hot, 0.1])}
+  if 'hot' not in plan and rng.random() < (0.45 if profile == 'c09' else 0.25):
+    # PCT-style schedule: d forced change points, long uninterrupted stretches in
+    # between (a whole writer pass inside one window of the other thread)
+    n = rng.choice([200, 600, 2000, 6000])
+    plan['pct_points'] = sorted(rng.sample(range(1, n), rng.choice([1, 2, 3, 5])))
+    plan['p_preempt'] = 0.0
+    plan.pop('file_p', None)
+    plan['p_lock'] = rng.choice([0.3, 0.6, 0.9])
   if profile == 'c03' and rng.random() < 0.8:
     nf = rng.choice([1, 1, 2, 3, 6])
     faults = {}
